@@ -25,7 +25,7 @@ ASSUMPTIONS = [
     "the reference model (ref/model.py) is the reading of pyairtouch/api.py docstrings + vendor documents; where they leave a choice every admissible value is accepted (AT5 limits in auto-heat/auto-cool, both spill+bypass, sensorless zone temperatures)",
     "only defined protocol values are generated (not-available codes are C05's subject)",
 ]
-PROBES = ["c10.auto_heat_cool", "c10.intelligent_auto", "c10.error_with_text", "c10.partial_frame", "c10.unknown_entity", "c10.at5_mode_limits", "c10.version_change"]
+PROBES = ["c10.error_episode_again", "c10.auto_heat_cool", "c10.intelligent_auto", "c10.error_with_text", "c10.partial_frame", "c10.unknown_entity", "c10.at5_mode_limits", "c10.version_change"]
 
 
 def budget(tier: str) -> int:
@@ -40,7 +40,14 @@ def generate(rng, index: int, tier: str) -> dict:
     knobs["chunk_gap"] = 0.0
     n = rng.choice([1, 3, 5, 10, 20, 40, 60])
     tl = [{"at": 0.0, "op": "user.init"}]
-    steps = history.console_steps(rng, gen, inst, n, 6.0, 0.5)
+    if rng.random() < 0.4:
+        # the console does not answer error-information requests (or only some): a new error episode
+        # must not show the description of an earlier one
+        tl.append({"at": 5.5, "op": "console.mute", "kinds": ["error_info_request"]})
+    kinds = None
+    if rng.random() < 0.3:
+        kinds = ["ac_error", "ac_error", "errtext", "ac", "repeat"]
+    steps = history.console_steps(rng, gen, inst, n, 6.0, 0.5, kinds=kinds)
     tl += steps
     times = sorted({s["at"] for s in steps})
     for t in times:
@@ -80,12 +87,22 @@ def execute(sc: dict) -> dict:
     if w.final.get("exceptions"):
         V.append(viol("C10.exception", {"contexts": w.final["exceptions"][:2]}))
     n_steps = sum(1 for s in sc["timeline"] if s["op"].startswith("console."))
+    probes = {k: v for k, v in probes.items() if isinstance(k, str)}
     return common.result(w, V, nontrivial=n_steps >= 3, probes=probes, evals=max(1, len(w.snapshots)))
 
 
 def _probe(r: dict, inst: dict, probes: dict, gen: int) -> None:
     if r["kind"] == "ac_status":
         known = {a["ac"] for a in inst["acs"]}
+        for a in r["acs"]:
+            key = ("_err_seen", a["ac"])
+            if a["error"]:
+                if probes.get(key) == "cleared":
+                    probes["c10.error_episode_again"] = 1
+                if probes.get(key) != "cleared":
+                    probes[key] = "active"
+            elif probes.get(key) == "active":
+                probes[key] = "cleared"
         for a in r["acs"]:
             if a["mode"] in ("auto_heat", "auto_cool"):
                 probes["c10.auto_heat_cool"] = 1
